@@ -9,7 +9,8 @@ void harness(void)
     xv_ghost_havoc();
     xv_ctl_ghost_havoc();
     xv_ctl_g_foreign = nondet_bool(); xv_ctl_g_fev = nondet_int();
-    struct client *client; struct ctl *ctl;
+    struct client *client = NULL;   /* (not left uninitialised: symex would add a 38 KB "unknown object" of type struct client to its points-to set; pointer_in_range in the contract assigns it) */
+    struct ctl *ctl;
     long s0 = xv_ctl_send_calls;
     int rv = process_client(client, ctl);
     if (xv_ctl_send_calls != s0) XV_CANARY("reply pending: sent");
